@@ -110,14 +110,16 @@ def projection_convention(fi):
                 name = bound.get(id(par))
         aliases = coeff_aliases(asg, name) if name is not None else set()
         inner_nodes = {id(x) for x in ast.walk(v)}
+        cands = []
         for n in df.body_nodes(fi.node, into_nested=False):
-            sub_expr = target = None
             if isinstance(n, ast.AugAssign) and isinstance(n.op, ast.Sub):
-                sub_expr, target = n.value, n.target
-            elif isinstance(n, (ast.Assign, ast.Return)) and isinstance(n.value, ast.BinOp) and isinstance(n.value.op, ast.Sub):
-                sub_expr, target = n.value.right, n.value.left  # w = w - c * Z, also as the returned value
-            if sub_expr is None:
-                continue
+                cands.append((n, n.value, n.target))
+            elif isinstance(n, (ast.Assign, ast.Return)) and n.value is not None:
+                # w = w - c * Z, also as the returned value or as a component of the returned / assigned tuple
+                for e_ in ([n.value] + (list(n.value.elts) if isinstance(n.value, ast.Tuple) else [])):
+                    if isinstance(e_, ast.BinOp) and isinstance(e_.op, ast.Sub):
+                        cands.append((n, e_.right, e_.left))
+        for n, sub_expr, target in cands:
             inline = any(x is v for x in ast.walk(sub_expr))
             if not inline and not (aliases & set(df.names_in(sub_expr))):
                 continue
@@ -447,3 +449,73 @@ def breakdown_stops(idx, rep, fact, rule, construct, counter_slot, cap_name="max
                     "step normalises a zero vector (0/0), e.g. when the start vector is an exact eigenvector", detail="continues", locs=loc)
     else:
         rep.undecided(rule, construct, f"`{text}` could not be folded at the breakdown point", locs=loc)
+
+
+def basis_aliasing(idx, rep, loop, construct):
+    """`A @ x` may BE x: some operator kinds hand their operand back unchanged (read off the _matmat methods: Identity, and any
+    matrix-free operator whose matmat does).  The operand of the recurrence is a view of the Krylov basis held in the loop state, so
+    arithmetic performed IN PLACE on the product (`w -= ...`, a helper that does) overwrites the basis vector itself.  OWN analysis of
+    the loop body: an in-place write whose target may be fresh storage or the state -- i.e. a value the code treats as a new vector."""
+    from sa.own import Own, show
+    body = loop.body
+    if body is None or isinstance(body, ast.Lambda):
+        rep.undecided("basis-aliasing", construct, "loop body is not a nested function")
+        return
+    own = Own(idx)
+    if not own.matmul_may_alias:
+        rep.proved("basis-aliasing", construct, "no operator kind returns its operand unchanged from _matmat: an operator product is always new storage",
+                   locs=[idx.loc(body.module, body.node)])
+        return
+    sp = body.params[0] if body.params else None
+    # inner `for_loop(0, counter + c, ...)` with c >= 1 over the outer loop's counter (which starts at >= 0 and only grows: the loop-cap
+    # obligations) runs at least once, so what it returns is what its body returns, not the initial value
+    from sa import loop as lp
+    cert = lp.cap_certificate(idx, loop)
+    if cert.get("ok") is True:
+        slots = lp.state_slots(body, sp)
+        counters = {n for n, i in slots.items() if i == cert["counter_slot"]}
+        for c in df.calls(body.node, into_nested=False):
+            if isinstance(c.func, ast.Attribute) and c.func.attr == "for_loop" and df.is_xnp_call(c):
+                b = df.bind_call(c, ["lower", "upper", "body_fun", "init_val"])
+                lo, up = b.get("lower"), b.get("upper")
+                if isinstance(lo, ast.Constant) and lo.value == 0 and isinstance(up, ast.BinOp) and isinstance(up.op, ast.Add):
+                    for x, k in ((up.left, up.right), (up.right, up.left)):
+                        if isinstance(x, ast.Name) and x.id in counters and isinstance(k, ast.Constant) and isinstance(k.value, int) and k.value >= 1:
+                            own.nonempty_loops.add(id(c))
+    res = own.analyse(body)
+    bad = [s for s in res.sites if ("fresh", ) in s.origins and ("param", sp) in s.origins and not s.kind.startswith("update_array")]
+    n_prod = sum(1 for n in df.body_nodes(body.node) if isinstance(n, ast.BinOp) and isinstance(n.op, ast.MatMult))
+    if not n_prod:
+        rep.undecided("basis-aliasing", construct, "no operator product in the loop body", locs=[idx.loc(body.module, body.node)])
+        return
+    for s in bad:
+        rep.refuted("basis-aliasing", construct, f"{s.kind} on `{s.target_text}` whose storage is {show(s.origins)}: the operator product may be the operand itself "
+                    f"({', '.join(own.matmul_may_alias)} returns it unchanged), a view of the basis in the loop state -- the basis vector is overwritten in place",
+                    detail="in-place", locs=[idx.loc(body.module, s.node)])
+    if not bad:
+        rep.proved("basis-aliasing", construct, f"{n_prod} operator product(s) in the loop body; no in-place write on a value that may share storage with the loop state "
+                   f"(operand-returning kinds: {', '.join(own.matmul_may_alias)})", locs=[idx.loc(body.module, body.node)])
+
+
+def clip_certificate(fi, a):
+    """is the iteration cap clipped to the dimension?  Some binding `c = min(P, a.shape[i])` of a parameter P (or of a straight-line
+    version of it) exists, and P is not read un-clipped after it.  -> (ok, text of the clip or '-')"""
+    import re
+    params = set(fi.params)
+    root = lambda n: re.sub(r"__\d+$", "", n)  # noqa: E731
+    for st in df.body_nodes(fi.node, into_nested=False):
+        if not (isinstance(st, ast.Assign) and isinstance(st.value, ast.Call) and nospace(st.value.func) == "min" and len(st.value.args) == 2):
+            continue
+        args = st.value.args
+        for x, y in ((args[0], args[1]), (args[1], args[0])):
+            if isinstance(x, ast.Name) and root(x.id) in params and nospace(y).replace("[-1]", "[0]").replace("[-2]", "[0]").replace("[1]", "[0]") == f"{a}.shape[0]":
+                tgt = st.targets[0].id if isinstance(st.targets[0], ast.Name) else None
+                if tgt is None or root(tgt) != root(x.id):
+                    continue
+                raw = x.id
+                later = [n for n in df.body_nodes(fi.node) if isinstance(n, ast.Name) and isinstance(n.ctx, ast.Load) and n.id == raw and n is not x
+                         and getattr(n, "lineno", 0) > st.lineno]
+                if tgt != raw and later:
+                    return False, f"{ast.unparse(st)} but `{raw}` is still read un-clipped at line {later[0].lineno}"
+                return True, ast.unparse(st.value)
+    return False, "-"
